@@ -539,6 +539,10 @@ func (m *BaseUndoLogManager) deserializeBranchUndoLog(rbInfo []byte, logCtx map[
 		}
 	}
 
+	if logParser == nil {
+		return nil, fmt.Errorf("undo log context does not name a serializer")
+	}
+
 	var branchUndoLog *undo.BranchUndoLog
 	if branchUndoLog, err = logParser.Decode(rbInfo); err != nil {
 		return nil, err
